@@ -18,6 +18,7 @@ from ..ref import meta as rmeta
 from ..ref import smf
 
 ID = 'C09'
+ANCHORS = ['mido.midifiles.meta']
 LEVEL = 'exploration'
 RULE = ('exhaustive finite domains: 256 denominators 2**0..2**255, 30 keys, 65 536 sequence '
         'numbers, 256 channel_prefix and 256 midi_port values, smpte grid 4 rates x 256 hours '
